@@ -987,9 +987,7 @@ func f1StableClass(g1 *sfnt.Font, hasPost, fromKern bool) string {
 			}
 		}
 	}
-	if fromKern {
-		return "kern"
-	}
+	_ = fromKern // the kern-derived GPOS table is a fixed point since the DFLT script tag repair
 	return ""
 }
 
@@ -1430,6 +1428,9 @@ func f1KernTokenOf(data []byte) string {
 	return f1GtabToken(f.Gpos)
 }
 
+// base font of the font.twice cases
+const f1TwiceBase = "fam=54657374 wd=5 wt=400 fl=100000 cpr=1 ver=65536 ct=1700000000:0 mt=-62135596800:0 dsc= smp= cpy= tm= lic= url= perm=0 upem=1000 fm=U/1000 asc=800 des=-200 gap=0 cap=700 xh=500 ia=0:0 up=-75:0 ut=50:0 kind=g n=8 w=500:0,500:0,500:0,500:0,600:0,500:0,500:0,500:0 rgl=4 rcm=1.2.0.0.0 rgsub=- rgpos=- rgdef=-"
+
 func init() {
 	ops["font.meta"] = func(f Fields) string {
 		font := f1FontFromFields(f)
@@ -1477,8 +1478,44 @@ func init() {
 		}
 		return f1Generations(data, false)
 	}
+	// font.twice: the same font written n times gives the same bytes (the script tag of the GSUB
+	// table is the parameter: tags without "-x-" extension go through bcp47ToOtf's map scan)
+	ops["font.twice"] = func(f Fields) string {
+		font := f1FontFromFields(parseFields(f1TwiceBase))
+		font.Gsub = f1BuildGsub("1", 8)
+		feat := font.Gsub.ScriptList[language.MustParse("und-Latn-x-latn")]
+		font.Gsub.ScriptList = map[language.Tag]*gtab.Features{language.MustParse(f["tag"]): feat}
+		seen := map[string]bool{}
+		for i := 0; i < f.Int("n"); i++ {
+			seen[string(f1WriteFont(font))] = true
+		}
+		if len(seen) == 1 {
+			return "same"
+		}
+		return fmt.Sprintf("differ:%d-distinct-files", len(seen))
+	}
 	areas["font"] = func(c *Ctx) {
-		// fixed corpus: the cases named in DESIGN §9 #4 and the boundary weights
+		for _, tag := range []string{"und-Latn-x-latn", "und-Zzzz-x-dflt", "en-Latn-x-latn-ENG", "de-Latn-x-latn-DEU"} {
+			c.Case(Direct, "font.twice", "tag="+tag+" n=20", true)
+		}
+		// sweep (DESIGN Appendix F): weight thresholds x IsBold x IsRegular x family names with weight words
+		sweepW := []int{0, 1, 400, 649, 650, 700, 749, 750, 1000}
+		if c.Tier == "thorough" {
+			sweepW = f1WeightPool
+		}
+		for _, w := range sweepW {
+			for fl := 0; fl < 4; fl++ {
+				for _, fam := range []string{"Test", "Go Bold", "Lightning"} {
+					rec := f1GenFont(c)
+					rec.font.Weight, rec.font.FamilyName = os2.Weight(w), fam
+					rec.font.IsBold, rec.font.IsRegular = fl&1 != 0, fl&2 != 0
+					args := f1LineOfFont(rec.font, rec.rgl, rec.rcm, rec.rgsub, rec.rgpos, rec.rgdef)
+					c.Case(Verdict, "font.meta", args, true)
+					f1EmitFixed(c, args)
+					c.Stat("sweep", "weight x bold x regular x family")
+				}
+			}
+		}
 		for c.evals < c.N {
 			if c.Rng.Chance(3, 5) {
 				rec := f1GenFont(c)
